@@ -11,6 +11,7 @@ import json
 import os
 import shutil
 import subprocess
+import zlib
 from typing import Any, Dict, List, Optional, Sequence
 
 from rpv import ods_io
@@ -88,10 +89,14 @@ def run_cli(
     if home:
         env["HOME"] = home
     if country == "generic":
-        env.setdefault("CURRENCY_CODE", "usd")
+        # ISO 4217 codes are accepted in any letter case; which spelling a run gets is a function of its config file
+        try:
+            with open(ini, "rb") as handle:
+                spelling = ("usd", "USD", "Eur", "jpy")[zlib.crc32(handle.read()) % 4]
+        except OSError:
+            spelling = "usd"
+        env.setdefault("CURRENCY_CODE", spelling)
         env.setdefault("LONG_TERM_CAPITAL_GAINS", "365")
-    import zlib
-
     if zlib.crc32((country + " " + " ".join(args)).encode()) % 4 == 0:
         # a quarter of all runs (a function of the options) log at debug level: what RP2 computes does not depend on how much it logs
         env["LOG_LEVEL"] = "DEBUG"
